@@ -18,6 +18,9 @@ pub struct Node {
 	pub parents: Vec<u16>,
 	pub split_name: bool,
 	pub edits: Vec<u8>,
+	/// spelling of the version name (0 = the plain `v<k>` / `c<k>~s<k>` of the saved cases); see `node_name`
+	#[serde(default)]
+	pub style: u8,
 }
 
 #[derive(Clone, Debug, Serialize, Deserialize)]
@@ -38,7 +41,7 @@ pub struct Case {
 
 fn strategy() -> impl Strategy<Value = Case> {
 	let cfg = GenCfg { ns_min: 2, ns_max: 2, p_missing: 0, style: TargetStyle::Simple, param_src_names: false, max_classes: 5, p_nested: 45, ..GenCfg::default() };
-	let node = (proptest::collection::vec(any::<u16>(), 1..3), prop_oneof![2 => Just(false), 1 => Just(true)], draws()).prop_map(|(parents, split_name, edits)| Node { parents, split_name, edits });
+	let node = (proptest::collection::vec(any::<u16>(), 1..3), prop_oneof![2 => Just(false), 1 => Just(true)], draws(), prop_oneof![1 => Just(0u8), 3 => 1u8..=9]).prop_map(|(parents, split_name, edits, style)| Node { parents, split_name, edits, style });
 	(mapset(cfg), proptest::collection::vec(node, 1..8), proptest::collection::vec(any::<u16>(), 24), proptest::collection::vec(any::<u16>(), 24), prop_oneof![5 => Just(0u8), 1 => 1u8..7, 1 => Just(4u8)], proptest::collection::vec(any::<(u16, u16)>(), 0..4)).prop_map(|(mut root, nodes, order1, order2, malformed, extra)| {
 		root.ns = vec!["calamus".into(), "named".into()];
 		Case { root, nodes, order1, order2, malformed, extra }
@@ -53,11 +56,29 @@ fn fix_docs(m: &mut MapSet) {
 	});
 }
 
+/// Version names as the Feather repository spells them: dots, dashes, names that are prefixes of each other, names
+/// containing the text of the two file extensions. Distinct for distinct k within one style *and* across styles
+/// (every name carries k in a position no other style uses).
+fn plain_name(k: usize, style: u8, side: &str) -> String {
+	match style {
+		0 => format!("{side}{k}"),
+		1 => format!("1.{k}{}", if side == "s" { "-server" } else if side == "c" { "-client" } else { "" }),
+		2 => format!("1.{k}.{}", if side == "s" { 2 } else { 5 }),
+		3 => format!("b1.{k}-pre1-2011090{}1459", if side == "s" { 9 } else { 8 }),
+		4 => format!("1{k}w14{}", if side == "s" { "b" } else { "a" }),
+		5 => format!("1.RV-Pre{k}{side}"),
+		6 => format!("{k}.tiny.x{side}"),
+		7 => format!("{k}.tinydiffs{side}"),
+		8 => format!("1.{k}.tiny{side}.0"),
+		_ => format!("a{k}.{side}_0.1.tinydif"),
+	}
+}
+
 fn node_name(k: usize, n: &Node) -> String {
 	if n.split_name {
-		format!("c{k}~s{k}")
+		format!("{}~{}", plain_name(k, n.style, "c"), plain_name(k, n.style, "s"))
 	} else {
-		format!("v{k}")
+		plain_name(k, n.style, "v")
 	}
 }
 
@@ -121,6 +142,89 @@ fn query(g: &VersionGraph, name: &str) -> Result<(Split, String, MapSet), String
 	let m = g.apply_diffs(v).map_err(|e| format!("apply_diffs({name:?}): {e:#}"))?;
 	let ms = from_quill(&m).map_err(|e| format!("harness: result not readable: {e:#}"))?;
 	Ok((split, full, ms))
+}
+
+/// The other entry points that report versions and mapping data of a resolved directory (`main.rs` resolves its command
+/// line through `get_all`, `insert_mappings.rs` walks the graph through `is_root_then_get_mappings` and `get_diff`):
+/// several names at once answer like each name alone, the root — and only the root — reports the root mappings, and the
+/// diff reported for two versions is the content of exactly the edge file between them (none where there is no edge).
+fn graph_queries(g: &VersionGraph, built: &Built, obs: &mut Obs) -> PropResult {
+	let n = built.names.len();
+	let mut keys: Vec<(String, usize)> = Vec::new();
+	for (k, full) in built.names.iter().enumerate() {
+		match full.split_once('~') {
+			Some((a, b)) => {
+				keys.push((a.to_string(), k));
+				keys.push((b.to_string(), k));
+			}
+			None => keys.push((full.clone(), k)),
+		}
+	}
+	match g.get_all(keys.iter().map(|(name, _)| name.as_str())) {
+		Ok(all) => {
+			if all.len() != keys.len() {
+				return Err(format!("get_all of {} names answers {} versions", keys.len(), all.len()));
+			}
+			for ((name, k), (split, v)) in keys.iter().zip(&all) {
+				let (want_split, want_v) = g.get(name).map_err(|e| format!("get({name:?}): {e:#}"))?;
+				if *split != want_split || v.as_str() != want_v.as_str() || v.as_str() != built.names[*k] {
+					return Err(format!("get_all answers ({split:?}, {:?}) for {name:?}, get alone answers ({want_split:?}, {:?}); the version is {:?}", v.as_str(), want_v.as_str(), built.names[*k]));
+				}
+			}
+		}
+		Err(e) => return Err(format!("get_all of the names of a well-formed directory failed: {e:#}")),
+	}
+	for pos in [0, keys.len() / 2, keys.len()] {
+		let mut names: Vec<&str> = keys.iter().map(|(name, _)| name.as_str()).collect();
+		names.insert(pos, "no-such-version");
+		if g.get_all(names.iter()).is_ok() {
+			return Err(format!("get_all resolved a list whose entry {pos} names no version"));
+		}
+	}
+	let entry = |k: usize| g.get(&keys.iter().find(|(_, kk)| *kk == k).unwrap().0).map(|(_, v)| v).map_err(|e| format!("get: {e:#}"));
+	for k in 0..n {
+		let v = entry(k)?;
+		match (k == 0, g.is_root_then_get_mappings(v)) {
+			(true, Some(m)) => {
+				let got = from_quill(m).map_err(|e| format!("harness: root mappings not readable: {e:#}"))?;
+				let mut want = built.contracted[0].clone();
+				want.ns = got.ns.clone();
+				let want_ext = match extend_inner(&want, 1) {
+					Extended::Ok(x) => x,
+					Extended::Fail(_) => want.clone(),
+				};
+				if got != want && got != want_ext {
+					return Err(format!("is_root_then_get_mappings(root) does not report the root file's mappings (neither with simple nor with extended inner names): got classes {:?}, root file has {:?}", got.classes.keys().collect::<Vec<_>>(), want.classes.keys().collect::<Vec<_>>()));
+				}
+			}
+			(true, None) => return Err("is_root_then_get_mappings(root) reports nothing".into()),
+			(false, Some(_)) => return Err(format!("is_root_then_get_mappings reports root mappings for the non-root version {:?}", built.names[k])),
+			(false, None) => {}
+		}
+	}
+	let mut edge_diffs = 0;
+	for a in 0..n {
+		for b in 0..n {
+			let (va, vb) = (entry(a)?, entry(b)?);
+			let is_edge = built.edges.contains(&(a, b));
+			match g.get_diff(va, vb) {
+				Ok(Some(d)) if is_edge => {
+					let got = crate::mapmodel::conv::diff_from_quill(&d).map_err(|e| format!("harness: diff not readable: {e:#}"))?.normalised();
+					let want = refops::diff(&built.contracted[a], &built.contracted[b]).ok_or("harness: diff not expressible")?.normalised();
+					if got != want {
+						return Err(format!("get_diff({:?}, {:?}) is not the content of the edge file between the two versions", built.names[a], built.names[b]));
+					}
+					edge_diffs += 1;
+				}
+				Ok(None) if !is_edge => {}
+				Ok(Some(_)) => return Err(format!("get_diff({:?}, {:?}) reports a diff although the directory has no such edge", built.names[a], built.names[b])),
+				Ok(None) => return Err(format!("get_diff({:?}, {:?}) reports nothing for an existing edge", built.names[a], built.names[b])),
+				Err(e) => return Err(format!("get_diff({:?}, {:?}) of a well-formed directory: {e:#}", built.names[a], built.names[b])),
+			}
+		}
+	}
+	obs.label_if(edge_diffs >= 2, "graph_queries:edge_diffs>=2");
+	Ok(())
 }
 
 fn check(case: &Case, obs: &mut Obs) -> PropResult {
@@ -252,6 +356,9 @@ fn check(case: &Case, obs: &mut Obs) -> PropResult {
 				}
 			}
 		}
+		if case.malformed == 0 || case.malformed == 6 {
+			graph_queries(&g, &built, obs)?;
+		}
 		if case.malformed == 5 {
 			for name in ["orphan", "ghost"] {
 				if let Ok((_, _, _)) = query(&g, name) {
@@ -324,6 +431,8 @@ fn check(case: &Case, obs: &mut Obs) -> PropResult {
 	obs.label(format!("max_path_edges={}", max_depth.min(5)));
 	obs.label_if(diamond, "diamond");
 	obs.label_if(built.names.iter().any(|x| x.contains('~')), "split_name");
+	obs.label_if(case.nodes.iter().any(|x| x.style != 0), "dotted_or_extension_like_version_names");
+	obs.label_if(built.names.iter().any(|x| built.names.iter().any(|y| y != x && y.starts_with(x.as_str()))), "version_name_prefix_of_another");
 	obs.label_if(case.order1 != case.order2, "two_creation_orders");
 	obs.label(format!("malformed={}", case.malformed));
 	obs.nontrivial_if(n >= 3 && max_depth >= 2 && case.malformed == 0);
@@ -332,7 +441,7 @@ fn check(case: &Case, obs: &mut Obs) -> PropResult {
 
 pub fn run(ctx: &mut Ctx) {
 	crate::engine::silence_stderr();
-	ctx.rule = "rooted graphs of 1-8 versions (each later version has 1-2 parents among the earlier ones: chains, trees, diamonds; plain and client~server names); each version's mappings derive from its first parent by a generated edit script (entries dropped/added, renames, comment edits at all levels), every edge file is the harness-written .tinydiff of the model-level diff between the contracted sets, the root file the harness-written .tiny with extended inner names; files are created in two generated orders inside fresh tmpfs directories (tmpfs lists in reverse creation order). Oracle: for every version and every name/half: get() finds it with the right split kind, and apply_diffs == extend(model of that version) (or an error where the outer class of a named nested class is gone); both creation orders give the same answers; malformed variants (no root, two roots, cycle through / below the root, version only below an undeclared parent, unknown name) must be refused by resolve or by every query on the defect. Non-trivial = >=3 versions and a queried path of >=2 edges in a well-formed directory; distinct by case hash".into();
+	ctx.rule = "rooted graphs of 1-8 versions (each later version has 1-2 parents among the earlier ones: chains, trees, diamonds; plain and client~server names); each version's mappings derive from its first parent by a generated edit script (entries dropped/added, renames, comment edits at all levels), every edge file is the harness-written .tinydiff of the model-level diff between the contracted sets, the root file the harness-written .tiny with extended inner names; files are created in two generated orders inside fresh tmpfs directories (tmpfs lists in reverse creation order). Oracle: for every version and every name/half: get() finds it with the right split kind, and apply_diffs == extend(model of that version) (or an error where the outer class of a named nested class is gone); both creation orders give the same answers; get_all answers like get per name and refuses a list with one unknown name, only the root reports root mappings, get_diff reports exactly the edge file's diff (nothing where there is no edge); version names are spelled v3 / c3~s3 or the way the Feather repository spells them (dots, dashes, -client/-server, names that are prefixes of each other or contain the text of the file extensions); malformed variants (no root, two roots, cycle through / below the root, version only below an undeclared parent, unknown name) must be refused by resolve or by every query on the defect. Non-trivial = >=3 versions and a queried path of >=2 edges in a well-formed directory; distinct by case hash".into();
 	ctx.assume("in a diamond all parents lead to the same child mappings (every path is valid)");
 	ctx.assume("directory listing orders other than those tmpfs produces for the generated creation orders are not reachable");
 	ctx.run_sub("version_graph", ctx.tier.pick(72000, 1200000), strategy, check);
